@@ -272,4 +272,4 @@ def run(ctx):
     n = ctx.pick(3, 4)
     ctx.run_parallel('shard_skeletons', extra=(n,))
     ctx.exhaustive('every operator skeleton with ≤ %d elements (groups nested ≤ 2, optional *2) × haml/pug/slim' % n)
-    ctx.run_parallel('shard_random', extra=(ctx.pick(300, 10000),))
+    ctx.run_parallel('shard_random', extra=(ctx.pick(300, 4000),))
